@@ -110,6 +110,19 @@ fn apply(q: &mut ZQ, op: u64, n: u64) -> (String, String) {
             let res = match r { Ok(nq) => { *q = nq; "ok" } Err(_) => "err" };
             (format!("deser {}", pairs(n)), res.into())
         }
+        17 => {
+            // the same pair sequence through a deserializer that ANNOUNCES a length (formats with a length prefix do; serde_json
+            // never does): the pre-allocation arithmetic of `visit_seq` runs with zero-sized elements
+            use serde::Deserialize;
+            let hint = [0usize, n as usize, 5000, usize::MAX][(n % 4) as usize];
+            let de = crate::ops::Announcing { vals: (0..n).map(|_| serde_json::json!([null, null])).collect(), hint };
+            let r = match q.kind() {
+                Kind::Pq => PriorityQueue::<Z, ZP>::deserialize(de).map(ZQ::Pq).map_err(|_| ()),
+                Kind::Dpq => DoublePriorityQueue::<Z, ZP>::deserialize(de).map(ZQ::Dpq).map_err(|_| ()),
+            };
+            let res = match r { Ok(nq) => { *q = nq; "ok" } Err(_) => "err" };
+            (format!("deser_hint {} {}", hint, pairs(n)), res.into())
+        }
         14 => {
             zboth!(q, x => x.reserve(n as usize));
             let (cap, len) = (zboth!(q, x => x.capacity()) as u128, zboth!(q, x => x.len()) as u128);
@@ -141,7 +154,7 @@ pub fn zst_stream(sink: &mut Sink, rng: &mut Rng, ncases: u64) {
         let mut q = ZQ::new(kind);
         for step in 0..r.range(4, 14) {
             // the first cases walk through every operation in turn, the rest are random
-            let op = if c < 34 { (c / 2 + step) % 17 } else { r.below(17) };
+            let op = if c < 36 { (c / 2 + step) % 18 } else { r.below(18) };
             let n = r.below(4);
             let c0 = cmp_count();
             let res = catch_unwind(AssertUnwindSafe(|| apply(&mut q, op, n)));
